@@ -85,6 +85,7 @@ func setStr(m map[string]bool) string {
 
 func runC17(c *Ctx) {
 	u, r := c.U, c.R
+	seedfixC17(c)
 	// R-LEVEL-OWNER
 	for _, f := range []string{"zstdEncoderLevel", "supportedEncodingsValue"} {
 		n := 0
@@ -247,6 +248,7 @@ func blockEntryGuard(p *ssa.BasicBlock) []Guard {
 
 func runC18(c *Ctx) {
 	u, r := c.U, c.R
+	seedfixC18(c)
 	r.Floor("R-BOUNDED-READ", 5)
 	r.Floor("R-BOUNDED-READ", 4)
 	for _, name := range []string{"(*HttpServer).readHTTPBody", "decompressBounded"} {
@@ -404,6 +406,7 @@ func runC18(c *Ctx) {
 
 func runC19(c *Ctx) {
 	u, r := c.U, c.R
+	seedfixC19(c)
 	r.Floor("R-ENFORCE-BEFORE-200", 2)
 	for _, name := range []string{"(*HttpServer).handleUnary", "(*HttpServer).handleExchangeCall"} {
 		fn := c.Fn("R-ENFORCE-BEFORE-200", name)
